@@ -65,7 +65,7 @@ def run(chk, args):
         mc(chk, f"n3L{L}", NP=3, L=L, plus=False, maxiter=2 if L != 2 else 2, termvals={0, 1, 2} if L <= 3 else {0, 2})
     mc(chk, "n3L2plus", NP=3, L=2, plus=True, maxiter=2, termvals={0, 1, 2})
     mc(chk, "n3L3plus", NP=3, L=3, plus=True, maxiter=3, termvals={0, 1, 2})
-    for L in ([1, 2, 5, 9, 10, 12] if q else range(1, 13)):
+    for L in ([1, 2, 4, 5, 9, 10, 12] if q else range(1, 13)):
         mc(chk, f"n4L{L}", NP=4, L=L, plus=False, maxiter=0, termvals={0}, iterate=False, invariants=["ConstructibleInv", "RankBijectionInv"])
     # the model can express both defects found on the unrepaired tree (self-test of the model)
     mc(chk, "selftest_unclipped", NP=3, L=4, plus=False, maxiter=1, termvals={0, 1}, clip=False, expect="CurrentStrategiesAreDistributions")
@@ -74,3 +74,7 @@ def run(chk, args):
     if not q:
         cfgs += [(5, 1), (5, 2), (5, 3)]
     validate(chk, cfgs, 3 if q else 6)
+    if q:
+        # the remaining limits of n = 4 and two limits of n = 5 with a single iteration (seed C14-f: a rank table whose integer type is
+        # chosen from the number of internal nodes wraps for n = 4 / limit 4 and n = 5 / limit 2 only)
+        validate(chk, [(4, L) for L in (3, 4, 6, 7, 8, 11)] + [(5, 1), (5, 2)], 1)
